@@ -21,6 +21,9 @@
 //!  * phase experiment (C20 C06): a request sent 0 / 1 ms / 300 ms / 499.999999 ms plus a phase of
 //!    0, 1, 137, 500, 999, 1001, 333 333, 999 999 ns after the agent's first instant, with and without an
 //!    earlier request or idle poll: its events relative to its own send instant are always the same;
+//!  * fractional configurations (C06): configure_timeout with 8 initial RTOs and 4 last time-outs that
+//!    are not whole milliseconds x retransmits 0..=8 x transports; every interval is the exact value
+//!    or its truncation to milliseconds;
 //!  * purity (C20): each history is run three times on fresh threads, the third alongside unrelated
 //!    agents; the complete reply transcripts must be identical.
 use super::*;
@@ -480,12 +483,83 @@ fn phase(sc: &Scenario) -> Outcome {
     out
 }
 
+/// Fractional configurations (C06): `configure_timeout` with durations that are not whole
+/// milliseconds (an RTO derived from a measured round-trip time).  The statement pins the intervals
+/// to initial_rto * 2^(k-1); the library keeps its schedule in whole milliseconds, so either that
+/// exact value or its truncation to milliseconds is admissible for each interval - but not the
+/// doubling of an already truncated value, nor a sum of truncated parts.
+fn fractional(sc: &Scenario) -> Outcome {
+    let base = base_instant();
+    let t = if sc.tcp { TransportType::Tcp } else { TransportType::Udp };
+    let mut out = Outcome { breaches: vec![], transcript: vec![] };
+    let rtos_us: [u64; 8] = [62_500, 1_500, 999, 500_400, 7_900, 333_333, 1_000_001, 250];
+    let lasts_us: [u64; 4] = [937_500, 0, 1_999, 10_000_500];
+    let rto = rtos_us[sc.n % 8];
+    let last = lasts_us[(sc.n / 8) % 4];
+    let n = sc.kind as u32;
+    let mut a = StunAgent::builder(t, local_addr()).build();
+    let sw = Software::new("scale-0").unwrap();
+    if a.send(build_req(0, &sw), saddr(0, 1), base).is_err() {
+        return out;
+    }
+    if let Some(mut r) = a.mut_request_transaction(stid(0).into()) {
+        r.configure_timeout(Duration::from_micros(rto), n, Duration::from_micros(last));
+    }
+    let floor_ms = |us: u64| us / 1000 * 1000;
+    // expected intervals in microseconds: (exact, truncated)
+    let mut want: Vec<(u64, u64, bool)> = Vec::new(); // (exact, truncated, is_timeout)
+    if sc.tcp {
+        let total: u64 = (0..n).map(|i| rto << i).sum::<u64>() + last;
+        want.push((total, floor_ms(total), true));
+    } else {
+        for i in 0..n {
+            want.push((rto << i, floor_ms(rto << i), false));
+        }
+        want.push((last, floor_ms(last), true));
+    }
+    let mut now = base;
+    let mut prev = base;
+    let mut k = 0usize;
+    for _ in 0..40 {
+        match a.poll(now) {
+            StunAgentPollRet::WaitUntil(i) => {
+                if a.request_transaction(stid(0).into()).is_none() || i <= now {
+                    break;
+                }
+                now = i;
+            }
+            ev => {
+                let is_timeout = matches!(ev, StunAgentPollRet::TransactionTimedOut(_));
+                let got = (now - prev).as_nanos() as u64;
+                match want.get(k) {
+                    Some((exact, trunc, to)) if *to == is_timeout && (got == exact * 1000 || got == trunc * 1000) => {}
+                    w => {
+                        out.breaches.push(("C06", "scale/fractional-interval".into(), format!("with configure_timeout({rto} us, {n}, {last} us) event #{k} ({}) came {got} ns after the previous transmission", if is_timeout { "time-out" } else { "retransmission" }), format!("{:?} (exact us, truncated to ms, time-out?)", w), format!("{got} ns")));
+                        return out;
+                    }
+                }
+                out.transcript.push(got);
+                prev = now;
+                k += 1;
+                if is_timeout {
+                    break;
+                }
+            }
+        }
+    }
+    if k != want.len() {
+        out.breaches.push(("C06", "scale/fractional-count".into(), format!("with configure_timeout({rto} us, {n}, {last} us) the schedule produced {k} events"), want.len().to_string(), k.to_string()));
+    }
+    out
+}
+
 pub fn run_scenario(sc: &Scenario) -> Outcome {
     match guarded(|| match sc.family.as_str() {
         "peers" => peers(sc),
         "addr" => addressing(sc),
         "contents" => contents(sc),
         "phase" => phase(sc),
+        "fractional" => fractional(sc),
         _ => transactions(sc),
     }) {
         Ok(o) => o,
@@ -798,6 +872,7 @@ pub fn judge(prop: &str, sc: &Scenario, acc: &mut Acc) {
         "addr" => "addressing matrix: local x destination x message kind",
         "contents" => "message contents: 256 attribute types served to time-out",
         "phase" => "phase experiment: sub-microsecond offsets between calls",
+        "fractional" => "fractional configuration: durations that are not whole milliseconds",
         _ => "long history: many concurrent requests",
     });
 }
@@ -866,6 +941,15 @@ pub fn scenarios(prop: &str, thorough: bool) -> Vec<Scenario> {
                             v.push(Scenario { family: "contents".into(), tcp, kind: 255, n: block, via, mix: 0, noise: false });
                         }
                     }
+                }
+            }
+        }
+    }
+    if prop == "C06" {
+        for tcp in [false, true] {
+            for retransmits in 0..=8u8 {
+                for n in 0..32usize {
+                    v.push(Scenario { family: "fractional".into(), tcp, kind: retransmits, n, via: 0, mix: 0, noise: false });
                 }
             }
         }
